@@ -471,6 +471,7 @@ class Gen:
             o, ov = self.literal("int")
             self.bind(name, ("fn", self.POINT, "int"), ("f", lambda p, ov=ov: ("i", p[3][0][1] + ov[1])), src="#fn")
             self.add_step("%s = #'%%m.point { [.x, %s] __integer_add__ }" % (name, o), "ok", VOK, "module-type", binds=[name])
+            a, av = self.expr("int", 1)      # (after the rebinding: `name` may have been an int before)
             b, bv = self.expr("int", 1)
             return self.add_step("Point[x: %s, y: %s] %s" % (a, b, name), "int", ("i", av[1] + ov[1]), "module-type-call")
         if which == "kst":
@@ -846,18 +847,32 @@ def classify_f85(ctx, exe, items, workers, mods, pr):
         return False
     lines = lines_of(items, f["cuts"])
     sess, li = f["sess"], f["li"]
-    k = li
-    for v in f["nilable"]:
-        kv = None
-        for q in range(li - 1, -1, -1):
+    def binder_line(v, upto):
+        for q in range(upto - 1, -1, -1):
             binds = dict((b[0], int(b[1])) for b in sess[q].get("binds", []))
             before = len(sess[q - 1].get("binds", [])) if q > 0 else 0
             if v in binds and binds[v] >= before and sess[q]["outcome"][0] == "ok":
-                kv = q
-                break
-        if kv is None:
-            return False
-        k = min(k, kv)
+                return q
+        return None
+
+    # The nil can be inherited: `R[1, e] = ..` (fallible) records e : T | [], a later infallible
+    # `R[z: e] =R(z)` then records z : T | [] as well. The span therefore starts at the earliest line
+    # that bound a nilable variable mentioned by the rejected line or, transitively, by a line of the span.
+    all_nilable = [x[0] for x in sess[li].get("types", []) if is_nilable_type(x[1])]
+    mentioned = set(f["nilable"])
+    k = li
+    while True:
+        k2 = k
+        for v in mentioned:
+            kv = binder_line(v, li)
+            if kv is None:
+                return False
+            k2 = min(k2, kv)
+        text = " , ".join(l for l, _ in lines[k2:li + 1])
+        more = {v for v in all_nilable if re.search(r"(?<![\w.%%'])%s(?![\w?!])" % re.escape(v), text)}
+        if k2 == k and more <= mentioned:
+            break
+        k, mentioned = k2, mentioned | more
     first_item = lines[k - 1][1] + 1 if k > 0 else 0
     span = items[first_item:lines[li][1] + 1]
     control = [l for l, _ in lines[:k]] + [it["src"] for it in span if it["kind"] == "alias"] + \
@@ -1021,6 +1036,8 @@ def run(ctx):
     compared = 0
     problems = 0
     f85_hits = 0
+    generator_rejects = 0
+    generator_reject_samples = []
     splits_compared = 0
     lines_run = 0
     nontrivial = set()
@@ -1037,6 +1054,13 @@ def run(ctx):
                 f85_hits += 1
                 ctx.violation({"kind": "impl-violation", "what": F85_WHAT, "workers": b["workers"], "mods": b.get("mods") or {},
                                "history": [it["src"] for it in b["items"]], "detail": p.detail}, finding_key="F85")
+                continue
+            if p.kind != "impl-violation" and not b.get("corpus"):
+                # a line the generator meant to be accepted (or rejected) that the REPL and the one program
+                # agree to treat otherwise is a generator matter: counted, the history is skipped
+                generator_rejects += 1
+                if len(generator_reject_samples) < 3:
+                    generator_reject_samples.append(dict(what=p.what, at=p.detail.get("at"), history=[it["src"] for it in b["items"]]))
                 continue
             problems += 1
             if problems <= 3:
@@ -1098,6 +1122,8 @@ def run(ctx):
     cov["corpus_histories"] = n_corpus
     cov["f85_shapes_left_in_generated_histories"] = stats_total.get("f85_shapes_left_in", 0)
     cov["histories_classified_as_F85"] = f85_hits
+    cov["generator_rejects"] = generator_rejects
+    cov["generator_reject_samples"] = generator_reject_samples
     cov["sessions_without_the_rejected_lines_compared"] = sum(1 for b in batch if len(b["hcases"]) == len(b["splits"]) + 1)
     cov["rejected_after_import"] = stats_total.get("reject_after_import", 0)
     cov["rejected_after_first_import_of_a_module"] = stats_total.get("reject_after_first_import", 0)
